@@ -59,11 +59,12 @@ import (
 
 // c14Entry is one signature entry of a certificate.
 type c14Entry struct {
-	K    string `json:"k"`    // class label, for readability only
-	Addr int    `json:"addr"` // ring index of the address the entry carries
-	Key  int    `json:"key"`  // ring index of the public key the entry carries = of the private key that signed
-	Msg  int    `json:"msg"`  // 0 = the certified proposal id was signed, 1 = another id
-	Sig  int    `json:"sig"`  // 0 = signature #1 (CBFTCrypto.SignVoteMsg), 1 = a second, different valid signature, 2 = #1 with one bit flipped
+	K    string `json:"k"`             // class label, for readability only
+	Addr int    `json:"addr"`          // ring index of the address the entry carries
+	Key  int    `json:"key"`           // ring index of the public key the entry carries = of the private key that signed
+	Msg  int    `json:"msg"`           // 0 = the certified proposal id was signed, 1 = another id
+	Sig  int    `json:"sig"`           // 0 = signature #1 (CBFTCrypto.SignVoteMsg), 1 = a second, different valid signature, 2 = #1 with one bit flipped
+	Pub  int    `json:"pub,omitempty"` // 1 = the same public key, its JSON text re-spaced (another serialisation of one key)
 }
 
 // c14Cert is one generated certificate plus the way it is submitted.
@@ -169,8 +170,33 @@ func c14Signature(key, msg, variant int) []byte {
 }
 
 func c14SignOf(e c14Entry) *cbftPb.QuorumCertSign {
-	return &cbftPb.QuorumCertSign{Address: hx.Ring[e.Addr].Address, PublicKey: hx.Ring[e.Key].PubJSON,
+	pub := hx.Ring[e.Key].PubJSON
+	if e.Pub == 1 {
+		pub = strings.Replace(pub, "{", "{ ", 1) + " "
+	}
+	return &cbftPb.QuorumCertSign{Address: hx.Ring[e.Addr].Address, PublicKey: pub,
 		Sign: c14Signature(e.Key, e.Msg, e.Sig)}
+}
+
+// c14WarmUp: before anything is judged, every verifier instance the direct paths use has verified - successfully and
+// legitimately - each key's vote for ANOTHER proposal id (a sibling the node saw earlier). A verdict must not
+// depend on what a verifier has seen before: the "wrongid" entries of later certificates carry exactly these
+// signatures.
+var c14WarmOnce sync.Once
+
+func c14WarmUp() {
+	c14WarmOnce.Do(func() {
+		for _, v := range []int{c14OutsiderB, 0} {
+			for k := 0; k < hx.RingSize; k++ {
+				for sig := 0; sig <= 1; sig++ {
+					qs := c14SignOf(c14Entry{Addr: k, Key: k, Msg: 1, Sig: sig})
+					if ok, err := c14CryptoOf(v).VerifyVoteMsgSign(qs, c14OtherID); !ok || err != nil {
+						panic(fmt.Sprintf("c14 harness: warm-up vote of key %d over the other id does not verify: %v %v", k, ok, err))
+					}
+				}
+			}
+		}
+	})
 }
 
 // c14EntryValid is the model: the entry is a valid signature of the owner of its address over the certified id.
@@ -454,6 +480,7 @@ func c14CheckDesc(d c14Cert) error {
 
 // c14Run submits the certificate; accepted = the code accepted the certificate (the vote, for path "vote").
 func c14Run(d c14Cert) (accepted bool, detail string, err error) {
+	c14WarmUp()
 	if err := c14CheckDesc(d); err != nil {
 		return false, "", err
 	}
@@ -629,7 +656,7 @@ func c14Describe(d c14Cert) string {
 		if i > 0 {
 			s += " "
 		}
-		s += fmt.Sprintf("%s(addr %d key %d msg %d sig %d)", e.K, e.Addr, e.Key, e.Msg, e.Sig)
+		s += fmt.Sprintf("%s(addr %d key %d msg %d sig %d pub %d)", e.K, e.Addr, e.Key, e.Msg, e.Sig, e.Pub)
 	}
 	return s + "]"
 }
@@ -735,11 +762,12 @@ func c14Build(path string, n, collector int, k c14Counts, v c14Variant) c14Cert 
 	}
 	for i := 0; i < k.B; i++ {
 		m := voters[i%k.A]
-		es = append(es, c14Entry{K: "repeat", Addr: m, Key: m})
+		// every other repeat states the same public key in another serialisation
+		es = append(es, c14Entry{K: "repeat", Addr: m, Key: m, Pub: (i + 1) % 2})
 	}
 	for i := 0; i < k.B2; i++ {
 		m := voters[i%k.A]
-		es = append(es, c14Entry{K: "repeat2", Addr: m, Key: m, Sig: 1})
+		es = append(es, c14Entry{K: "repeat2", Addr: m, Key: m, Sig: 1, Pub: i % 2})
 	}
 	for i := 0; i < k.NM; i++ {
 		o := c14OutsiderA + i%2
